@@ -65,7 +65,7 @@ type VIterC struct {
 	Str   *VStr
 	Pos   *Term // string: byte position; map: number of Next calls so far
 	Slots []MapSlot
-	Rank  []*Term
+	Ord   [][]*Term // Ord[a][b]: slot a is visited before slot b
 	KT    types.Type
 	VT    types.Type
 }
